@@ -25,9 +25,21 @@ def cnt(v):
     return Int(v, "u8")
 
 
+# thread-private environment operations (a worker's own local segment, its in-process flag, the ghost
+# budget that only bounds nondeterminism): not visible, i.e. executed atomically with the preceding
+# visible operation of the same worker.  Everything another worker can observe stays visible.
+PRIVATE = ("verif_pop_local", "verif_process_end", "verif_push_local")   # process_begin / child stay visible: they bound the private chain
+
+
+def visible(callee):
+    if callee.split("::")[-1] in PRIVATE:
+        return False
+    return CM.visible(callee)
+
+
 def build_system(rt_prog, drv_prog, nworkers, budget, initial):
     models = list(POOL_MODELS) + CM.all_models()
-    sysm = B.System([rt_prog, drv_prog], models, CM.visible, nworkers)
+    sysm = B.System([rt_prog, drv_prog], models, visible, nworkers)
     # Terminator { total, working, awakening, lock, condvar }  (field order of the struct)
     term = Tup((Int(nworkers, "usize"), CM.mk_atomic(Int(nworkers, "usize")), CM.mk_atomic(Int(0, "usize")),
                 CM.mk_mutex(), CM.mk_condvar(1)), name="Terminator")
@@ -234,34 +246,17 @@ def run_config(rt, drv, N, budget, initial, K, tmo, deadline, qjobs=1):
     # pool leaves order: local[T], deque[T], injector, budget, inproc[T], terminated, processed, created
     i_processed, i_created = 2 * N + 2 + N + 1, 2 * N + 2 + N + 2
 
-    queries = [
-        ("panic-or-ghost-violation", U.fired(lambda e: e.panic is not None and not e.panic.startswith("RANGE")), "unsat"),
-        ("range-of-narrowed-variables", U.fired(lambda e: e.panic is not None and e.panic.startswith("RANGE")), "unsat"),
-        ("deadlock", z3.Or(*[z3.And(U.stuck(k), z3.Not(U.all_done(k))) for k in range(K)]), "unsat"),
-        ("unfinished-at-K", z3.And(z3.Not(U.all_done(K)), *[z3.Not(U.stuck(k)) for k in range(K)]), "unsat"),
-        ("exactly-once", z3.Or(*[z3.And(U.all_done(k), U.V[k]["S"][svar(sysm, "pool", i_processed)] != U.V[k]["S"][svar(sysm, "pool", i_created)])
-                                for k in range(K + 1)]), "unsat"),
-        # vacuity witnesses (must be sat)
-        ("witness-all-finish", U.all_done(K), "sat"),
-        ("witness-a-worker-sleeps-and-is-notified",
-         z3.Or(*[U.V[k]["S"][svar(sysm, "sched", t)] == 0x80 for k in range(K + 1) for t in range(N)]), "sat"),
-        ("witness-wake_up-fast-path", U.fired(lambda e: "wake_up:bb2" in B.node_name(e.src) and "wake_up" not in B.node_name(e.dst)
-                                               and e.panic is None), "sat"),
-    ]
-
-    def ask(q):
-        name, extra, expect = q
-        v, tr, st = U.decide(extra, tmo, "c12-%d-%d-%d" % (N, budget, K))
-        out = {"verdict": v, "expected": expect, **st}
-        if v == "sat" and expect == "unsat":
-            out["trace"] = tr
-        log("   [%s N=%d B=%d K=%d] %s: %s (cnf %.1fs, sat %.1fs)" % (PID, N, budget, K, name, v, st["cnf_s"], st["sat_s"]))
-        return name, out
-    import multiprocessing.pool as mpp
-    # queries are independent: decide them concurrently (threads; the work is in kissat subprocesses and z3's C code)
-    with mpp.ThreadPool(qjobs) as tp:
-        for name, out in tp.imap(ask, queries) if qjobs > 1 else map(ask, queries):
-            res["queries"][name] = out
+    from ..mir import bmccheck as BC
+    bad_once = z3.Or(*[z3.And(U.all_done(k), U.V[k]["S"][svar(sysm, "pool", i_processed)] != U.V[k]["S"][svar(sysm, "pool", i_created)])
+                       for k in range(K + 1)])
+    wit = [("witness-all-finish", U.all_done(K)),
+           ("witness-a-worker-sleeps-and-is-notified",
+            z3.Or(*[U.V[k]["S"][svar(sysm, "sched", t)] == 0x80 for k in range(K + 1) for t in range(N)])),
+           ("witness-wake_up-fast-path", U.fired(lambda e: "wake_up:bb2" in B.node_name(e.src) and "wake_up" not in B.node_name(e.dst)
+                                                  and e.panic is None))]
+    qs = BC.standard_queries(U, [("exactly-once", bad_once)], wit)
+    res["queries"] = BC.decide_all(U, qs, tmo, "c12-%d-%d-%d" % (N, budget, K), qjobs, PID, "N=%d B=%d" % (N, budget))
+    res["cfg"] = {"workers": N, "budget": budget, "initial": initial}
     res["fns"] = sorted(sysm.interp_fns)
     res["models"] = sorted(sysm.models_used)
     res["cfa_stats"] = sysm.stats
@@ -270,8 +265,9 @@ def run_config(rt, drv, N, budget, initial, K, tmo, deadline, qjobs=1):
 
 CONFIGS = {
     # (workers, budget of children, initial items in the injector, K)
-    "quick": [(2, 1, 1, 60), (2, 2, 1, 80)],
-    "thorough": [(2, 1, 1, 60), (2, 2, 1, 80), (2, 3, 1, 110), (3, 1, 1, 80), (3, 2, 1, 110)],
+    # first entry = core configuration: must be decided completely (incl. "no execution is longer than K")
+    "quick": [(2, 1, 1, 62), (2, 2, 1, 56)],
+    "thorough": [(2, 1, 1, 62), (2, 2, 1, 95), (2, 3, 1, 110), (3, 1, 1, 85), (3, 2, 1, 100)],
 }
 
 
@@ -282,58 +278,36 @@ def main(tier):
     tmo = 240 if tier == "quick" else 1800
     deadline = t0 + (900 if tier == "quick" else 3000)
     results = []
-    import multiprocessing as mp
     cfgs = CONFIGS[tier]
-    with mp.get_context("fork").Pool(min(len(cfgs), int(os.environ.get("VERIF_JOBS", "16")))) as pool:
-        jobs = [pool.apply_async(_cfg_worker, ((rt, drv, c, tmo, deadline),)) for c in cfgs]
-        for j in jobs:
-            r = j.get()
-            if "inconclusive" in r:
-                raise Inconclusive(r["inconclusive"])
-            results.append(r)
+    for r in common.fork_map(_cfg_worker, [(rt, drv, c, tmo, deadline) for c in cfgs], min(len(cfgs), 4)):
+        if "inconclusive" in r:
+            raise Inconclusive(r["inconclusive"])
+        results.append(r)
     return finish(tier, t0, results, rep)
 
 
 def _cfg_worker(a):
     rt, drv, (N, B_, I, K), tmo, deadline = a
     try:
-        return run_config(rt, drv, N, B_, I, K, tmo, deadline)
+        return run_config(rt, drv, N, B_, I, K, tmo, deadline, qjobs=4)
     except Inconclusive as e:
         return {"inconclusive": "N=%d B=%d: %s" % (N, B_, e)}
 
 
 def finish(tier, t0, results, rep):
-    nq = 0
-    undecided = []
+    from ..mir import bmccheck as BC
     samples = []
-    states = trans = 0
+    states = sum(r["nodes"] for r in results)
+    trans = sum(r["edges"] for r in results)
+    nq, undecided, bounded = BC.judge(results, rep, "terminator", lambda r: "N=%d B=%d" % (r["workers"], r["budget"]))
     for r in results:
-        states += r["nodes"]
-        trans += r["edges"]
-        for name, q in r["queries"].items():
-            nq += 1
-            if q["verdict"] == "unknown":
-                undecided.append("N=%d B=%d K=%d %s" % (r["workers"], r["budget"], r["K"], name))
-            elif q["expected"] == "sat" and q["verdict"] == "unsat":
-                raise Inconclusive("vacuity witness %s is unsat for N=%d B=%d K=%d" % (name, r["workers"], r["budget"], r["K"]))
-            elif name == "range-of-narrowed-variables" and q["verdict"] == "sat":
-                raise Inconclusive("a narrowed state variable can exceed its width (N=%d B=%d)" % (r["workers"], r["budget"]))
-            elif q["expected"] == "unsat" and q["verdict"] == "sat":
-                tr = q.get("trace", [])
-                what = "%s with %d workers, budget %d: %s" % (name, r["workers"], r["budget"],
-                                                             next((s["panic"] for s in tr if s.get("panic")), "see trace"))
-                rep.violation("terminator/" + name, what, {"config": {k: r[k] for k in ("workers", "budget", "initial", "K")}, "trace": tr})
         samples.append({k: r[k] for k in ("workers", "budget", "initial", "K", "nodes", "edges")})
-    # quick tier must decide its core (first) configuration completely
-    core = results[0]
-    if any(q["verdict"] == "unknown" for q in core["queries"].values()):
-        raise Inconclusive("core configuration undecided within the time cap: " + ", ".join(undecided))
     cov = {
         "states": states, "transitions": trans, "traces_validated_against_impl": 0,
         "samples": samples + [{"query": n, **{k: v for k, v in q.items() if k != "trace"}} for n, q in results[0]["queries"].items()],
         "configurations": [{k: v for k, v in r.items() if k not in ("fns", "models")} for r in results],
         "functions_encoded": results[0]["fns"], "models_used": results[0]["models"],
-        "queries": nq, "undecided_queries": undecided,
+        "queries": nq, "undecided_queries": undecided, "bounded_only": bounded,
         "bounds": "threads and work budgets as listed per configuration; every schedule of at most K steps; 'unfinished-at-K' unsat certifies that K covers all complete executions of the workload",
         "outside_the_claim": ["crossbeam deques / injector themselves", "mark-bit CAS", "more than 3 workers", "weak memory (SC assumed)",
                               "the worker loops of marking.rs / minor.rs are mirrored by the driver in engines/drivers/src/c12.rs, not extracted"],
